@@ -232,6 +232,18 @@ func (e *Env) tr(x *Expr) Val {
 			bs = append(bs, "(q!"+p.Name+" "+s+")")
 		}
 		body := n.trBool(x.Args[0])
+		if len(x.Args) > 1 {
+			var ps []string
+			for _, pe := range x.Args[1:] {
+				pv := n.tr(pe)
+				if seqLike(pv) {
+					ps = append(ps, n.asSeq(pv))
+				} else {
+					ps = append(ps, n.rv(pv).T)
+				}
+			}
+			body = "(! " + body + " :pattern (" + strings.Join(ps, " ") + "))"
+		}
 		return Val{T: "(" + x.Op + " (" + strings.Join(bs, " ") + ") " + body + ")", Sort: "Bool"}
 	case "let":
 		v := e.tr(x.Args[0])
@@ -412,6 +424,21 @@ func (e *Env) field(base Val, name string) Val {
 			case "val":
 				return Val{T: "(i_val " + b.T + ")", Sort: "Loc"}
 			}
+		}
+	}
+	// ghost fields that exist on every location ("ghost *.name : type")
+	if gg, ok := e.g.prog.specs.Ghosts["*."+name]; ok {
+		b := base
+		if !b.isLv() || b.GoT != nil {
+			b = e.rv(base)
+		}
+		if b.Sort == "Loc" {
+			k := e.u().ghostKind(gg.Type)
+			return Val{Addr: fmt.Sprintf("(fld %s %s)", b.T, smtI(int64(gg.ID))), GKind: k}
+		}
+		if b.Sort == "Slice" {
+			k := e.u().ghostKind(gg.Type)
+			return Val{Addr: fmt.Sprintf("(fld (s_arr %s) %s)", b.T, smtI(int64(gg.ID))), GKind: k}
 		}
 	}
 	// determine the address of the struct
@@ -625,6 +652,23 @@ func (e *Env) call(x *Expr) Val {
 			obj = "(l_obj (s_arr " + b.T + "))"
 		}
 		return Val{T: "(<= " + ap.T + " " + obj + ")", Sort: "Bool"}
+	case "cell_int", "cell_string", "cell_bool", "cell_i32":
+		b := e.rv(e.tr(x.Args[0]))
+		if b.Sort != "Loc" {
+			fail("%s needs a location", name)
+		}
+		var t types.Type
+		switch name {
+		case "cell_int":
+			t = types.Typ[types.Int]
+		case "cell_string":
+			t = types.Typ[types.String]
+		case "cell_bool":
+			t = types.Typ[types.Bool]
+		case "cell_i32":
+			t = types.Typ[types.Int32]
+		}
+		return Val{Addr: b.T, GoT: t}
 	case "allocated":
 		b := e.rv(e.tr(x.Args[0]))
 		obj := "(l_obj " + b.T + ")"
